@@ -149,14 +149,21 @@ Proof.
   - apply M_register; assumption.
 Qed.
 
-Lemma M_update_auth clg c x s : M clg s -> 0 < x -> M clg (update_auth Current c x s).
+Lemma M_update_auth_core clg c x s : M clg s -> 0 < x -> M clg (update_auth_core Current c x s).
 Proof.
-  intros [H1 H2 H3 H4] Hx. unfold update_auth. destruct (get c (reg s)) as [r|] eqn:E; [|split; assumption].
+  intros [H1 H2 H3 H4] Hx. unfold update_auth_core. destruct (get c (reg s)) as [r|] eqn:E; [|split; assumption].
   cbn [reconciles]. unfold with_reg, with_idx. split; proj.
   - apply nodup_set. exact H1.
   - apply nodup_set. unfold drop_stale. apply nodup_filter. exact H2.
   - eapply OK1_index_set; [apply OK1_mutate_reconcile; eassumption|apply get_set_same|reflexivity|reflexivity|exact Hx|reflexivity].
   - apply (RO_set_existing _ _ _ c r); assumption.
+Qed.
+
+Lemma M_update_auth clg c x s : M clg s -> 0 < x -> M clg (update_auth Current c x s).
+Proof.
+  intros Hm Hx. unfold update_auth. destruct (get c (reg s)); [|exact Hm]. cbn [evicts].
+  apply M_update_auth_core; [|exact Hx]. unfold evict_holder. destruct (get x (idx s)) as [o|]; [|exact Hm].
+  destruct (o =? c); [exact Hm|]. apply M_registry_remove. exact Hm.
 Qed.
 
 Lemma M_tunnel_remove clg c s : M clg s -> M clg (tunnel_remove c s).
